@@ -10,18 +10,18 @@ export PKG_CONFIG_PATH=/opt/fluxstub/pc
 cd $wt || exit 9
 git checkout -q -- . && git clean -fdq && git checkout -q --detach main
 cp -r $out/change${k}_demo/. $wt/
-echo "== demo on clean tree"; go test -count=1 -vet=off "${LD[@]}" -run "$re" $pkg 2>&1 | tail -3 > /tmp/seed_clean.txt; cat /tmp/seed_clean.txt
+echo "== demo on clean tree"; go test -count=1 -vet=off "${LD[@]}" -run "$re" $pkg 2>&1 | tail -3 > /tmp/seed_${prop}_clean.txt; cat /tmp/seed_${prop}_clean.txt
 git apply $out/change$k.diff 2>/dev/null || patch -p1 -s -F3 --no-backup-if-mismatch < $out/change$k.diff || { echo "diff does not apply"; git checkout -q -- .; git clean -fdq; exit 8; }
 find . -name "*.orig" -o -name "*.rej" | xargs -r rm -f
-git diff -- . ':!*_test.go' > /tmp/seed_rebased.diff
-echo "== demo with change"; go test -count=1 -vet=off "${LD[@]}" -run "$re" $pkg 2>&1 | tail -12 > /tmp/seed_mut.txt; cat /tmp/seed_mut.txt
+git diff -- . ':!*_test.go' > /tmp/seed_${prop}_rebased.diff
+echo "== demo with change"; go test -count=1 -vet=off "${LD[@]}" -run "$re" $pkg 2>&1 | tail -12 > /tmp/seed_${prop}_mut.txt; cat /tmp/seed_${prop}_mut.txt
 git clean -fdq   # remove the demo, keep the change
 echo "== build"; go build "${LD[@]}" ./... 2>&1 | tail -3; b=$?
 echo "== pinned suite"; go test -vet=off -count=1 ./alert/... ./auth/... ./clock/... ./services/bigpanda/... ./services/config/override/... ./services/httppost/... ./tick/... ./timer/... ./udf/agent/... ./waiter/... 2>&1 | grep -v "no test files" | grep -v "^ok" | head -5
 git checkout -q -- . && git clean -fdq
-if grep -q "^ok" /tmp/seed_clean.txt && grep -q "FAIL" /tmp/seed_mut.txt; then
+if grep -q "^ok" /tmp/seed_${prop}_clean.txt && grep -q "FAIL" /tmp/seed_${prop}_mut.txt; then
   d=/verif/seeded/$prop-$k${slug:+-$slug}; mkdir -p $d
-  cp /tmp/seed_rebased.diff $d/patch.diff; rm -rf $d/demo; cp -r $out/change${k}_demo $d/demo
+  cp /tmp/seed_${prop}_rebased.diff $d/patch.diff; rm -rf $d/demo; cp -r $out/change${k}_demo $d/demo
   echo "CONFIRMED -> $d"
 else
   echo "NOT CONFIRMED"
